@@ -36,6 +36,7 @@ import DateutilVerif.Proofs.RRuleNthMonthly
 import DateutilVerif.Proofs.RRuleNthYearly
 import DateutilVerif.Proofs.RRuleNthYM
 import DateutilVerif.Proofs.RRuleEasterYearly
+import DateutilVerif.Proofs.RRuleWeekno
 
 namespace C01
 open RRule Cal RRule.Tables
@@ -117,6 +118,22 @@ theorem nwdaymask_marks_nth_weekdays (r : Rule) (y m : Int) (info : Info) (h : r
         Py.getIdx mask j = .ok (if ∃ wn ∈ nwl, marks info (daysBeforeMonth y month)
             (daysBeforeMonth y month + daysInMonth y month - 1) j wn then 1 else 0) :=
   nwdaymask_monthly (rebuild_facts r y m info h) hf nwl hne hnw hok month hm1 hm12
+
+/-- **the week-number mask, main loop (partial)**: one pass of lines 1182-1186 started at index `i` marks
+    exactly the indices from `i` up to (excluding) the next index whose weekday is WKST — at most 7,
+    across the year end into the 7-day tail — raises nothing and changes nothing else.  (With
+    `weekLoop_spec` this gives: after the loop over BYWEEKNO an index is marked iff it lies in one of
+    the listed, normalised, existing weeks.  Missing for the whole `wnomask`: next year's week 1, last
+    year's last week (`lnumweeks`, D-C01c) and the bridge to the specification's week numbering.) -/
+theorem wnomask_marks_one_week_partial (r : Rule) (y m : Int) (info : Info) (h : rebuild r y m = .ok info)
+    (wkst : Int) (hw : 0 ≤ wkst ∧ wkst ≤ 6) (i : Int) (mask : List Int)
+    (h0 : 0 ≤ i) (hn : i + 7 ≤ (mask.length : Int)) (hlen : (mask.length : Int) ≤ 378) :
+    ∃ mask', markWeek info.wdaymask wkst 7 mask i = .ok mask' ∧ mask'.length = mask.length ∧
+      ∀ j : Int, 0 ≤ j → j < (mask.length : Int) →
+        Py.getIdx mask' j =
+          (if i ≤ j ∧ j < i + ((wkst - weekdayOfOrd (info.yearordinal + i) - 1) % 7 + 1) then .ok 1
+           else Py.getIdx mask j) :=
+  markWeek_week (rebuild_facts r y m info h) wkst hw i mask h0 hn hlen
 
 /-! ### 2. the constructor -/
 
